@@ -315,3 +315,310 @@ pub fn flush_journal_stopping(index: &HnswIndex, now_ms: u64, stop_at: usize) ->
     let st = *stopped.borrow();
     Ok((out, st))
 }
+
+// ---------------------------------------------------------------------------
+// Every public checkpoint protocol of `HnswIndex`, with one injected fault.
+// ---------------------------------------------------------------------------
+
+/// The four ways the crate's public API lets a caller persist one generation
+/// (all documented as nodes -> ids -> metadata, metadata being the commit
+/// record), each followed by `purge_removed_nodes` once the persist step
+/// reported success.
+#[derive(Clone, Copy, Debug, PartialEq, Eq, Serialize, Deserialize)]
+pub enum Proto {
+    /// `flush_with(now, node_f, ids_f, metadata_f)` (what `anda_db` uses)
+    FlushWith,
+    /// `flush(metadata_writer, ids_writer, now, node_f)` (crate docs, example, `Hnsw::new`)
+    Flush,
+    /// `store_dirty_nodes(f)`, `store_ids(w)`, `store_metadata(w, now)`
+    Granular,
+    /// `store_dirty_nodes(f)`, `store_ids(w)`, `store_metadata_with(now, f)`
+    GranularWith,
+}
+
+pub const PROTOS: [Proto; 4] = [Proto::FlushWith, Proto::Flush, Proto::Granular, Proto::GranularWith];
+
+/// One fault injected into one checkpoint pass. `*Stop(j)`: the j-th call of
+/// that callback answers `Ok(false)` (documented cooperative stop, nothing is
+/// written for that call); `*Err(j)` / `IdsErr` / `MetaErr`: the call (or the
+/// writer) fails, nothing is written for it.
+#[derive(Clone, Copy, Debug, PartialEq, Eq, Serialize, Deserialize)]
+pub enum Fault {
+    None,
+    NodeStop(usize),
+    NodeErr(usize),
+    IdsErr,
+    MetaErr,
+    PurgeStop(usize),
+    PurgeErr(usize),
+}
+
+impl Fault {
+    pub fn class(&self) -> &'static str {
+        match self {
+            Fault::None => "none",
+            Fault::NodeStop(_) => "node_stop",
+            Fault::NodeErr(_) => "node_err",
+            Fault::IdsErr => "ids_err",
+            Fault::MetaErr => "meta_err",
+            Fault::PurgeStop(_) => "purge_stop",
+            Fault::PurgeErr(_) => "purge_err",
+        }
+    }
+    pub fn is_injected_error(&self) -> bool {
+        matches!(self, Fault::NodeErr(_) | Fault::IdsErr | Fault::MetaErr | Fault::PurgeErr(_))
+    }
+}
+
+/// What one checkpoint pass did.
+#[derive(Clone, Debug, Default)]
+pub struct Pass {
+    /// durable writes in the order they were issued
+    pub writes: Vec<Write>,
+    /// the injected fault was reached
+    pub fault_hit: bool,
+    /// the persist step ran to its end without stop or error (so the purge was run)
+    pub persisted: bool,
+    /// an API call returned an error (text); expected iff an error was injected and reached
+    pub error: Option<String>,
+    /// calls of the node callback / the purge callback (including the faulted one)
+    pub node_calls: usize,
+    pub purge_calls: usize,
+}
+
+/// `std::io::Write` that keeps what it is given (one durable object) and
+/// remembers when it was first written to; `fail` makes every write fail.
+pub struct RecWriter<'a> {
+    pub buf: Vec<u8>,
+    pub first_seq: Option<u64>,
+    pub asked: bool,
+    fail: bool,
+    seq: &'a std::cell::Cell<u64>,
+}
+
+impl<'a> RecWriter<'a> {
+    pub fn new(seq: &'a std::cell::Cell<u64>, fail: bool) -> Self {
+        RecWriter { buf: Vec::new(), first_seq: None, asked: false, fail, seq }
+    }
+}
+
+impl std::io::Write for RecWriter<'_> {
+    fn write(&mut self, data: &[u8]) -> std::io::Result<usize> {
+        self.asked = true;
+        if self.fail {
+            return Err(std::io::Error::other("injected writer failure"));
+        }
+        if self.first_seq.is_none() {
+            let s = self.seq.get();
+            self.seq.set(s + 1);
+            self.first_seq = Some(s);
+        }
+        self.buf.extend_from_slice(data);
+        Ok(data.len())
+    }
+    fn flush(&mut self) -> std::io::Result<()> {
+        Ok(())
+    }
+}
+
+fn injected() -> BoxError {
+    "injected callback failure".into()
+}
+
+/// Runs ONE checkpoint pass of `proto` on `index` with `fault` injected:
+/// the persist step, and — only when that step ran to its end without stop or
+/// error, as the crate documents — `purge_removed_nodes`. Whatever reaches a
+/// callback or a writer counts as durable (a non-empty writer = that object
+/// was replaced) and is returned in issue order. Nothing is applied to a
+/// store here.
+pub fn checkpoint_pass(index: &HnswIndex, proto: Proto, now_ms: u64, fault: Fault) -> Pass {
+    use std::cell::Cell;
+    let seq = Cell::new(0u64);
+    let tick = || {
+        let s = seq.get();
+        seq.set(s + 1);
+        s
+    };
+    let events: RefCell<Vec<(u64, Write)>> = RefCell::new(Vec::new());
+    let node_calls = Cell::new(0usize);
+    let purge_calls = Cell::new(0usize);
+    let hit = Cell::new(false);
+    let stopped = Cell::new(false);
+    let mut error: Option<String> = None;
+
+    // the node callback shared by all protocols
+    let node_cb = |id: u64, data: Vec<u8>| -> Result<bool, BoxError> {
+        let c = node_calls.get();
+        node_calls.set(c + 1);
+        match fault {
+            Fault::NodeStop(j) if j == c => {
+                hit.set(true);
+                stopped.set(true);
+                Ok(false)
+            }
+            Fault::NodeErr(j) if j == c => {
+                hit.set(true);
+                Err(injected())
+            }
+            _ => {
+                let s = tick();
+                events.borrow_mut().push((s, Write::Node(id, data)));
+                Ok(true)
+            }
+        }
+    };
+
+    let mut persisted = false;
+    match proto {
+        Proto::FlushWith => {
+            let r = vcore::util::now(index.flush_with(
+                now_ms,
+                |id, data| std::future::ready(node_cb(id, data)),
+                |data| {
+                    std::future::ready(if fault == Fault::IdsErr {
+                        hit.set(true);
+                        Err(injected())
+                    } else {
+                        let s = tick();
+                        events.borrow_mut().push((s, Write::Ids(data)));
+                        Ok(())
+                    })
+                },
+                |data| {
+                    std::future::ready(if fault == Fault::MetaErr {
+                        hit.set(true);
+                        Err(injected())
+                    } else {
+                        let s = tick();
+                        events.borrow_mut().push((s, Write::Meta(data)));
+                        Ok(())
+                    })
+                },
+            ));
+            match r {
+                Ok(_) => persisted = !stopped.get(),
+                Err(e) => error = Some(format!("flush_with: {e}")),
+            }
+        }
+        Proto::Flush => {
+            let mut meta_w = RecWriter::new(&seq, fault == Fault::MetaErr);
+            let mut ids_w = RecWriter::new(&seq, fault == Fault::IdsErr);
+            let r = vcore::util::now(index.flush(&mut meta_w, &mut ids_w, now_ms, async |id, data: &[u8]| node_cb(id, data.to_vec())));
+            if (fault == Fault::MetaErr && meta_w.asked) || (fault == Fault::IdsErr && ids_w.asked) {
+                hit.set(true);
+            }
+            if !ids_w.buf.is_empty() {
+                events.borrow_mut().push((ids_w.first_seq.unwrap(), Write::Ids(std::mem::take(&mut ids_w.buf))));
+            }
+            if !meta_w.buf.is_empty() {
+                events.borrow_mut().push((meta_w.first_seq.unwrap(), Write::Meta(std::mem::take(&mut meta_w.buf))));
+            }
+            match r {
+                Ok(_) => persisted = !stopped.get(),
+                Err(e) => error = Some(format!("flush: {e}")),
+            }
+        }
+        Proto::Granular | Proto::GranularWith => 'g: {
+            // like the crate's own orchestrator: ids and metadata only when something is outstanding
+            if !index.has_dirty_nodes() && !index.has_pending_metadata_flush() {
+                persisted = true;
+                break 'g;
+            }
+            let r = vcore::util::now(index.store_dirty_nodes(async |id, data: &[u8]| node_cb(id, data.to_vec())));
+            if let Err(e) = r {
+                error = Some(format!("store_dirty_nodes: {e}"));
+                break 'g;
+            }
+            if stopped.get() {
+                break 'g;
+            }
+            let mut ids_w = RecWriter::new(&seq, fault == Fault::IdsErr);
+            let r = index.store_ids(&mut ids_w);
+            if fault == Fault::IdsErr && ids_w.asked {
+                hit.set(true);
+            }
+            if let Err(e) = r {
+                error = Some(format!("store_ids: {e}"));
+                break 'g;
+            }
+            events.borrow_mut().push((ids_w.first_seq.unwrap_or_else(&tick), Write::Ids(std::mem::take(&mut ids_w.buf))));
+            if proto == Proto::Granular {
+                let mut meta_w = RecWriter::new(&seq, fault == Fault::MetaErr);
+                let r = index.store_metadata(&mut meta_w, now_ms);
+                if fault == Fault::MetaErr && meta_w.asked {
+                    hit.set(true);
+                }
+                match r {
+                    Ok(true) => events.borrow_mut().push((meta_w.first_seq.unwrap_or_else(&tick), Write::Meta(std::mem::take(&mut meta_w.buf)))),
+                    Ok(false) => {}
+                    Err(e) => {
+                        error = Some(format!("store_metadata: {e}"));
+                        break 'g;
+                    }
+                }
+            } else {
+                let r = vcore::util::now(index.store_metadata_with(now_ms, async |data: &[u8]| {
+                    if fault == Fault::MetaErr {
+                        hit.set(true);
+                        Err(injected())
+                    } else {
+                        let s = tick();
+                        events.borrow_mut().push((s, Write::Meta(data.to_vec())));
+                        Ok(())
+                    }
+                }));
+                if let Err(e) = r {
+                    error = Some(format!("store_metadata_with: {e}"));
+                    break 'g;
+                }
+            }
+            persisted = true;
+        }
+    }
+
+    if persisted {
+        let r = vcore::util::now(index.purge_removed_nodes(async |id| {
+            let c = purge_calls.get();
+            purge_calls.set(c + 1);
+            match fault {
+                Fault::PurgeStop(j) if j == c => {
+                    hit.set(true);
+                    Ok(false)
+                }
+                Fault::PurgeErr(j) if j == c => {
+                    hit.set(true);
+                    Err(injected())
+                }
+                _ => {
+                    let s = tick();
+                    events.borrow_mut().push((s, Write::DelNode(id)));
+                    Ok(true)
+                }
+            }
+        }));
+        if let Err(e) = r {
+            error = Some(format!("purge_removed_nodes: {e}"));
+        }
+    }
+
+    let mut ev = events.into_inner();
+    ev.sort_by_key(|(s, _)| *s);
+    Pass {
+        writes: ev.into_iter().map(|(_, w)| w).collect(),
+        fault_hit: hit.get(),
+        persisted,
+        error,
+        node_calls: node_calls.get(),
+        purge_calls: purge_calls.get(),
+    }
+}
+
+/// Nothing is pending on the live index: no dirty node, metadata saved.
+pub fn nothing_pending(index: &HnswIndex) -> bool {
+    !index.has_dirty_nodes() && !index.has_pending_metadata_flush()
+}
+
+/// Nothing pending and no tombstone waiting for its purge.
+pub fn quiescent(index: &HnswIndex) -> bool {
+    nothing_pending(index) && !index.has_removed_nodes()
+}
